@@ -22,6 +22,8 @@ import (
 	"github.com/daeuniverse/dae/component/routing"
 	D "github.com/daeuniverse/outbound/dialer"
 	"github.com/daeuniverse/outbound/netproxy"
+	"github.com/daeuniverse/outbound/pool"
+	pbytes "github.com/daeuniverse/outbound/pool/bytes"
 	dnsmessage "github.com/miekg/dns"
 )
 
@@ -70,6 +72,27 @@ type C05LoopCase struct {
 	Chunk2     []byte // sent while the upstream dial is in progress (when HoldDial) or right after chunk1
 	HoldDial   bool   // the fake dial returns only once chunk2 is pending in dae's socket
 	ServerResp []byte
+	Label      string // shape name used in signatures of the overlap leg
+	atDial     func() // overlap leg: runs inside the upstream dial of this connection (after protocol detection, before the relay)
+}
+
+func lbIsTimeout(err error) bool {
+	ne, ok := err.(net.Error)
+	return ok && ne.Timeout()
+}
+
+func (tc *C05LoopCase) kind() string {
+	if tc.Label == "" {
+		return ""
+	}
+	return "/" + tc.Label
+}
+
+func headC05(b []byte) string {
+	if len(b) > 48 {
+		b = b[:48]
+	}
+	return fmt.Sprintf("%q", b)
 }
 
 // C05Loopback runs one case to completion and returns a violation signature ("" = held).
@@ -114,6 +137,9 @@ func C05Loopback(tc *C05LoopCase) (string, map[string]any) {
 				}
 				time.Sleep(20 * time.Millisecond)
 			}
+			if tc.atDial != nil {
+				tc.atDial()
+			}
 			return daeSide, nil
 		}}, gopt, dialer.InstanceOption{DisableCheck: true}, &dialer.Property{Property: D.Property{Name: "node-" + name, Address: "node.invalid:443", Protocol: "verif"}})
 		return ob.NewDialerGroup(gopt, name, []*dialer.Dialer{d}, []*dialer.Annotation{{}},
@@ -141,11 +167,14 @@ func C05Loopback(tc *C05LoopCase) (string, map[string]any) {
 	go func() { handleDone <- cp.handleConn(context.Background(), lc) }()
 
 	var serverGot, clientGot []byte
+	var srvTimedOut bool
 	srvDone := make(chan struct{})
 	go func() {
 		defer close(srvDone)
 		upstream.SetReadDeadline(time.Now().Add(8 * time.Second))
-		serverGot, _ = io.ReadAll(upstream)
+		var rerr error
+		serverGot, rerr = io.ReadAll(upstream)
+		srvTimedOut = lbIsTimeout(rerr)
 		upstream.Write(tc.ServerResp)
 		upstream.CloseWrite()
 	}()
@@ -163,25 +192,28 @@ func C05Loopback(tc *C05LoopCase) (string, map[string]any) {
 	close(sent2)
 	client.CloseWrite()
 	client.SetReadDeadline(time.Now().Add(8 * time.Second))
-	clientGot, _ = io.ReadAll(client)
+	var cerr error
+	clientGot, cerr = io.ReadAll(client)
 	<-srvDone
 	select {
 	case <-handleDone:
 	case <-time.After(8 * time.Second):
-		return "loopback: handleConn did not return", nil
+		return "loopback: handleConn did not return", map[string]any{"timed_out": true}
 	}
 	want := append(append([]byte(nil), tc.Chunk1...), tc.Chunk2...)
-	detail := map[string]any{"port": tc.Port, "mode": tc.Mode, "chunk1": len(tc.Chunk1), "chunk2": len(tc.Chunk2), "hold_dial": tc.HoldDial, "server_got": len(serverGot), "client_got": len(clientGot)}
+	detail := map[string]any{"port": tc.Port, "mode": tc.Mode, "chunk1": len(tc.Chunk1), "chunk2": len(tc.Chunk2), "hold_dial": tc.HoldDial, "server_got": len(serverGot), "client_got": len(clientGot),
+		"timed_out": srvTimedOut || lbIsTimeout(cerr)}
 	if !bytes.Equal(serverGot, want) {
 		off := 0
 		for off < len(serverGot) && off < len(want) && serverGot[off] == want[off] {
 			off++
 		}
 		detail["first_difference_at"] = off
-		return fmt.Sprintf("loopback p%d/%s c1=%d c2=%d hold=%v: %s", tc.Port, tc.Mode, len(tc.Chunk1), len(tc.Chunk2), tc.HoldDial, classify("client->upstream", want, serverGot)), detail
+		detail["server_got_head"], detail["client_sent_head"] = headC05(serverGot[off:]), headC05(want[off:])
+		return fmt.Sprintf("loopback p%d/%s%s c1=%d c2=%d hold=%v: %s", tc.Port, tc.Mode, tc.kind(), len(tc.Chunk1), len(tc.Chunk2), tc.HoldDial, classify("client->upstream", want, serverGot)), detail
 	}
 	if !bytes.Equal(clientGot, tc.ServerResp) {
-		return fmt.Sprintf("loopback p%d/%s c1=%d c2=%d hold=%v: %s", tc.Port, tc.Mode, len(tc.Chunk1), len(tc.Chunk2), tc.HoldDial, classify("upstream->client", tc.ServerResp, clientGot)), detail
+		return fmt.Sprintf("loopback p%d/%s%s c1=%d c2=%d hold=%v: %s", tc.Port, tc.Mode, tc.kind(), len(tc.Chunk1), len(tc.Chunk2), tc.HoldDial, classify("upstream->client", tc.ServerResp, clientGot)), detail
 	}
 	return "", detail
 }
@@ -324,4 +356,101 @@ func C05History(hist []string, id int) (sig string, inconclusive bool, detail ma
 		cancel()
 	}
 	return "", false, detail
+}
+
+// ---- overlapping connections over real sockets ----------------------------------------------------------------
+// Two connections A and B through the real handleConn share every process-global pool the relay path draws from
+// (sniff buffers of outbound/pool, the prefetch buffer pool, the relay copy buffers). The property quantifies over
+// schedules; this leg enumerates the coarse interleavings that real sockets let the harness control: connection B
+// runs from accept to close INSIDE a window of A in which A still owes bytes to its upstream:
+//   dial    B runs while A is dialling its upstream (A's early bytes sit in its prefix/sniff/bufio buffers)
+//   gather  B runs between A's prefix hand-over + pending-data read and A's gather write
+//           (the in-tree relayGatherWriteTestHook is exactly that point)
+// A warm-up connection W of A's shape runs first on emptied pools, so A works on recycled pool elements.
+// Oracle for W, A and B alike: byte equality in both directions (contents are tagged per connection).
+// The caller runs this leg on ONE scheduler thread (GOMAXPROCS=1): sync.Pool then hands a released element to the
+// next Get, which makes "released while still referenced" observable instead of dependent on P affinity.
+type C05OverlapCase struct {
+	Name         string
+	Warm         *C05LoopCase
+	A, B         *C05LoopCase
+	Point        string // "dial" | "gather"
+	Reached      bool   // out: B actually ran inside A's window
+	Inconclusive bool   // out: a wall-clock deadline of the harness expired (never a violation in this leg)
+}
+
+func lbTimedOut(d map[string]any) bool {
+	t, _ := d["timed_out"].(bool)
+	return t
+}
+
+var c05Drained [][]*pbytes.Buffer
+
+func c05DrainSharedPools() {
+	// Empty the sniff-buffer pool of github.com/daeuniverse/outbound/pool (a sync.Pool outside the instrumented
+	// files): the elements are kept referenced for the rest of the process, so nothing handed out later was ever
+	// seen by an earlier case. The pools declared in the instrumented files are deterministic LIFO stacks already.
+	var keep []*pbytes.Buffer
+	for i := 0; i < 64; i++ {
+		keep = append(keep, pool.GetBuffer())
+	}
+	c05Drained = append(c05Drained, keep)
+	if len(c05Drained) > 4096 {
+		c05Drained = c05Drained[1:]
+	}
+}
+
+func C05Overlap(oc *C05OverlapCase) (sig string, detail map[string]any) {
+	detail = map[string]any{"case": oc.Name}
+	c05DrainSharedPools()
+	if oc.Warm != nil {
+		if s, d := C05Loopback(oc.Warm); s != "" {
+			detail["warm"] = d
+			if lbTimedOut(d) {
+				oc.Inconclusive = true
+				return "", detail
+			}
+			return fmt.Sprintf("overlap %s: warm-up connection: %s", oc.Name, s), detail
+		}
+	}
+	var (
+		ranB bool
+		sigB string
+		detB map[string]any
+	)
+	runB := func() {
+		if ranB {
+			return
+		}
+		ranB = true
+		sigB, detB = C05Loopback(oc.B)
+	}
+	a := *oc.A
+	switch oc.Point {
+	case "dial":
+		a.atDial = runB
+	case "gather":
+		relayGatherWriteTestHookMu.Lock()
+		relayGatherWriteTestHook = func(int, int) { runB() } // the first relay to get here is A's; B's own calls find ranB set
+		relayGatherWriteTestHookMu.Unlock()
+		defer func() {
+			relayGatherWriteTestHookMu.Lock()
+			relayGatherWriteTestHook = nil
+			relayGatherWriteTestHookMu.Unlock()
+		}()
+	}
+	sigA, detA := C05Loopback(&a)
+	oc.Reached = ranB
+	detail["A"], detail["B"] = detA, detB
+	if (sigA != "" && lbTimedOut(detA)) || (sigB != "" && lbTimedOut(detB)) {
+		oc.Inconclusive = true
+		return "", detail
+	}
+	if sigA != "" {
+		return fmt.Sprintf("overlap %s: connection A (B ran inside A's %s window): %s", oc.Name, oc.Point, sigA), detail
+	}
+	if sigB != "" {
+		return fmt.Sprintf("overlap %s: connection B (ran inside A's %s window): %s", oc.Name, oc.Point, sigB), detail
+	}
+	return "", detail
 }
